@@ -295,6 +295,11 @@ pub fn run(input: &mut dyn BufRead, out: &mut dyn Write, _args: &[String]) -> R 
                         "tcp_par" => {
                             let (tx, rx) = std::sync::mpsc::channel();
                             let mut a = huginn_net_tcp::HuginnNetTcp::with_config(if with_db { Some(Arc::clone(&db)) } else { None }, cap, nw, qs, bs, to).expect("analyzer");
+                            // "late_filter": a pool had already been initialised (and is replaced) when the filter is installed
+                            if v["late_filter"].as_bool() == Some(true) {
+                                let (tx0, _rx0) = std::sync::mpsc::channel();
+                                a.init_pool(tx0).expect("pool");
+                            }
                             if let Some(f) = filt {
                                 a = a.with_filter(crate::m_filter::tcp_filter(f));
                             }
@@ -320,6 +325,11 @@ pub fn run(input: &mut dyn BufRead, out: &mut dyn Write, _args: &[String]) -> R 
                         "http_par" => {
                             let (tx, rx) = std::sync::mpsc::channel();
                             let mut a = huginn_net_http::HuginnNetHttp::with_config(if with_db { Some(Arc::clone(&db)) } else { None }, cap, nw, qs, bs, to).expect("analyzer");
+                            // "late_filter": a pool had already been initialised (and is replaced) when the filter is installed
+                            if v["late_filter"].as_bool() == Some(true) {
+                                let (tx0, _rx0) = std::sync::mpsc::channel();
+                                a.init_pool(tx0).expect("pool");
+                            }
                             if let Some(f) = filt {
                                 a = a.with_filter(crate::m_filter::http_filter(f));
                             }
@@ -333,6 +343,11 @@ pub fn run(input: &mut dyn BufRead, out: &mut dyn Write, _args: &[String]) -> R 
                         _ => {
                             let (tx, rx) = std::sync::mpsc::channel();
                             let mut a = huginn_net_tls::HuginnNetTls::with_config_and_max_connections(nw, qs, bs, to, cap);
+                            // "late_filter": a pool had already been initialised (and is replaced) when the filter is installed
+                            if v["late_filter"].as_bool() == Some(true) {
+                                let (tx0, _rx0) = std::sync::mpsc::channel();
+                                a.init_pool(tx0).expect("pool");
+                            }
                             if let Some(f) = filt {
                                 a = a.with_filter(crate::m_filter::tls_filter(f));
                             }
